@@ -64,7 +64,18 @@ def gen_template(rng):
             props = {}
             names = tprops[t] if uniform else rng.sample(PROPS, rng.randint(1, 4))
             for p in names:
-                if (t, p) in pool and rng.random() < 0.4:
+                if (t, p) in pool and rng.random() < 0.15:
+                    # the same text with another type in a second resource ("50" and 50, "true" and true): both spellings must survive
+                    x = rng.choice(pool[(t, p)])
+                    if isinstance(x, (bool, int, float)):
+                        props[p] = json.dumps(x)
+                        classes.add("same-text-other-type")
+                    elif isinstance(x, str) and re.match(r"^-?[1-9]\d{0,8}$", x):
+                        props[p] = int(x)
+                        classes.add("same-text-other-type")
+                    else:
+                        props[p] = x
+                elif (t, p) in pool and rng.random() < 0.4:
                     props[p] = rng.choice(pool[(t, p)])       # repeated value across resources
                 else:
                     props[p] = gen_value(rng, classes)
